@@ -7,7 +7,8 @@ import numpy as np
 ID = "C14"
 PROPS_FILE = "theories/Props/C14.v"
 EXTRACT = ("theories/Extract/XC14.v", "c14",
-           ["entry_mec_ok", "entry_chrystal_many"])
+           ["entry_mec_ok", "entry_chrystal_many", "entry_sweep_many", "entry_feret_max", "entry_feret_min_ok",
+            "entry_fill_model", "entry_fill_check"])
 PYX = {}
 RULE = ("label images of 1-20 objects drawn from: single pixel, two pixels, collinear runs (horizontal, vertical, "
         "diagonal, slope 1/s), squares and rectangles (co-circular corners), right and random lattice triangles, thin "
@@ -365,9 +366,12 @@ def model(ctx, cases, outs):
     res = [None] * len(cases)
     ok = [k for k in range(len(cases)) if not _bad(outs[k])]
     objs = {k: _objects(cases[k], outs[k]) for k in ok}
-    ch = ctx.run_model("entry_chrystal_many", [[h for (_, _, h) in objs[k]] for k in ok])
-    for k, r in zip(ok, ch):
-        res[k] = {"mec": r}
+    hulls = [[h for (_, _, h) in objs[k]] for k in ok]
+    ch = ctx.run_model("entry_chrystal_many", hulls)
+    sw = ctx.run_model("entry_sweep_many", hulls)
+    fl = ctx.run_model("entry_fill_model", [[[l, h] for (l, _, h) in objs[k] if h] for k in ok])
+    for k, r, w, f in zip(ok, ch, sw, fl):
+        res[k] = {"mec": r, "sweep": w, "fill": f}
     return res
 
 
@@ -396,6 +400,25 @@ def compare(case, out, m):
         if not (_close(cy, ey, TOL_MEC) and _close(cx, ex, TOL_MEC) and _close(rad, er, TOL_MEC)):
             return "minimum_enclosing_circle object %d: implementation (%r, %r, %r) vs exact Chrystal model (%r, %r, %r)" % (
                 k, cy, cx, rad, ey, ex, er)
+    fer = out["feret"]
+    if _exc(fer):
+        return "feret_diameter raised %s" % (fer,)
+    if isinstance(m["sweep"], dict):
+        return "sweep model failed: %s" % (m["sweep"],)
+    for k, w in enumerate(m["sweep"]):
+        if len(w) != 3:
+            return "antipodal sweep model ran out of fuel on object %d" % k
+        emax, emin = math.sqrt(w[0]), math.sqrt(F(w[1], w[2]))
+        if not (_close(fer["max"][k], emax, TOL_FERET) and _close(fer["min"][k], emin, TOL_FERET)):
+            return "feret_diameter object %d: implementation (min %r, max %r) vs exact sweep model (min %r, max %r)" % (
+                k, fer["min"][k], fer["max"][k], emin, emax)
+    if _exc(out["fill"]):
+        return "fill_convex_hulls raised %s" % (out["fill"],)
+    if out["fill"] != m["fill"]:
+        a, b = out["fill"], m["fill"]
+        d = next((q for q in range(min(len(a), len(b))) if a[q] != b[q]), min(len(a), len(b)))
+        return "fill_convex_hulls differs from the scan-line model at row %d: implementation %s model %s (lengths %d, %d)" % (
+            d, a[d:d + 3], b[d:d + 3], len(a), len(b))
     return None
 
 
@@ -433,6 +456,7 @@ def check(ctx, cases, outs):
                               q, l, cy, cx, r, ey, ex, math.sqrt(R)))
                 break
             jobs.append((k, q, [pix, [list(s1), list(s2), list(s3)], [_q(x) for x in w], [_q(ey), _q(ex), _q(R)]]))
+    _check_feret_fill(ctx, cases, outs, res)
     if jobs:
         rs = ctx.run_model("entry_mec_ok", [j[2] for j in jobs])
         for (k, q, a), r in zip(jobs, rs):
@@ -443,12 +467,97 @@ def check(ctx, cases, outs):
     return res
 
 
+def _best_edge(pix, h):
+    """exact minimum over the edges of h of (largest distance of a pixel to the edge's line)^2"""
+    P = np.array(pix, dtype=np.int64)
+    best = None
+    n = len(h)
+    for q in range(n):
+        a, b = h[q], h[(q + 1) % n]
+        sd = (b[0] - a[0]) * (P[:, 1] - a[1]) - (b[1] - a[1]) * (P[:, 0] - a[0])
+        reach = int(np.abs(sd).max())
+        d = _d2(a, b)
+        if d == 0:
+            continue
+        w = F(reach * reach, d)
+        if best is None or w < best[0]:
+            best = (w, a, b)
+    return best
+
+
+def _check_feret_fill(ctx, cases, outs, res):
+    mx_jobs, mn_jobs, fl_jobs = [], [], []
+    for k, (case, out) in enumerate(zip(cases, outs)):
+        if res[k] is not None:
+            continue
+        fer = out["feret"]
+        objs = _objects(case, out)
+        for q, (l, pix, h) in enumerate(objs):
+            if not pix:
+                continue
+            fmin, fmax = fer["min"][q], fer["max"][q]
+            if fmin is None or fmax is None:
+                res[k] = "feret_diameter: NaN for object %d (label %d)" % (q, l)
+                break
+            mx_jobs.append((k, q, pix, fmax))
+            if len(h) < 2:
+                if fmin != 0:
+                    res[k] = "feret_diameter: minimum %r for the single-pixel object %d" % (fmin, q)
+                    break
+                continue
+            be = _best_edge(pix, h)
+            if be is None:
+                res[k] = "convex hull of object %d has coincident vertices: %s" % (q, h)
+                break
+            w, a, b = be
+            if not _close(fmin, math.sqrt(w), TOL_FERET):
+                res[k] = ("feret_diameter: object %d (label %d): minimum %r but the narrowest strip resting on a hull "
+                          "edge has width %r (edge %s-%s)" % (q, l, fmin, math.sqrt(w), a, b))
+                break
+            mn_jobs.append((k, q, [pix, h, [a, b], [w.numerator, w.denominator]]))
+        if res[k] is None:
+            rows = sorted(out["fill"], key=lambda t: (t[2], t[0], t[1]))
+            fl_jobs.append((k, [[[l, h] for (l, _, h) in objs if h], rows]))
+    if mx_jobs:
+        rs = ctx.run_model("entry_feret_max", [j[2] for j in mx_jobs])
+        for (k, q, pix, fmax), r in zip(mx_jobs, rs):
+            if res[k] is None and not (isinstance(r, int) and _close(fmax, math.sqrt(r), TOL_FERET)):
+                res[k] = ("feret_diameter: object %d: maximum %r but the largest distance between two of its pixels is "
+                          "sqrt(%s) = %r" % (q, fmax, r, math.sqrt(r) if isinstance(r, int) else None))
+    if mn_jobs:
+        rs = ctx.run_model("entry_feret_min_ok", [j[2] for j in mn_jobs])
+        for (k, q, a), r in zip(mn_jobs, rs):
+            if res[k] is None and r != 1:
+                res[k] = ("feret_diameter: object %d: the verified checker feret_min_ok rejects the minimum width^2 %s/%s "
+                          "(hull %s)" % (q, a[3][0], a[3][1], a[1]))
+    if fl_jobs:
+        rs = ctx.run_model("entry_fill_check", [j[1] for j in fl_jobs])
+        for (k, a), r in zip(fl_jobs, rs):
+            if res[k] is None and r != 1:
+                res[k] = ("fill_convex_hulls: output is not exactly the lattice points inside or on each hull polygon, "
+                          "each once with its label (Spec.FillSpec.fill_ok false); %d rows" % len(a[1]))
+
+
 def nontrivial(case, out):
     return (not _bad(out)) and any(c >= 3 for c in out["cnt"])
 
 
 def kernel_crosscheck(ctx, cases, outs):
-    return None, 0
+    idx = [k for k, c in enumerate(cases) if not _bad(outs[k]) and len(c["indexes"]) <= 3
+           and len(c["labels"]) * len(c["labels"][0]) <= 150][:36]
+    if not idx:
+        return None, 0
+    objs = [_objects(cases[k], outs[k]) for k in idx]
+    hulls = [[h for (_, _, h) in o] for o in objs]
+    fobjs = [[[l, h] for (l, _, h) in o if h] for o in objs]
+    for module, entry, args in (("Model.Circle", "entry_chrystal_many", hulls), ("Model.Feret", "entry_sweep_many", hulls),
+                                ("Model.HullFill", "entry_fill_model", fobjs)):
+        exp = ctx.run_model(entry, args)
+        r = ctx.coq_eval_eq(module, entry, args, exp, tag=entry[6:10])
+        bad = [k for k, b in zip(idx, r) if b is not True]
+        if bad:
+            return "vm_compute evaluation of %s.%s differs from the extracted program on case %d" % (module, entry, bad[0]), len(idx)
+    return None, len(idx)
 
 
 def search_cases(ctx, rnd):
